@@ -20,8 +20,21 @@
                                   publishes a root log {} → emptyTrieRoot for equity, asset id and contract storage (kernel-checked).
     * `assetcode_undo_leaves_noop_dirty` — on the CURRENT code the guard `DirtyOk` is needed: undo of a write to a committed,
                                   un-queued asset leaves a queued no-op write (the dirty sets differ) …
-    * `noop_dirty_publishes_nothing` / `assetcode_noop_harmless` — … which publishes nothing: the asset-code root of such an account is not zero.
-    * `zero_root_dirty_publishes` — a zero root with ANY queued key publishes a root log, whatever the values (why the defect was one).
+    * `noop_dirty_publishes_nothing` / `assetcode_noop_harmless` / `zero_root_dirty_publishes` / `set_root_publishes_iff` —
+                                  UNFOLDINGS of the 3-line model definition `rootLog` (JournalDirty.lean), not registered as theorems of
+                                  the property.  They READ: a set root publishes iff some queued write changes the content; a zero
+                                  root with any queued key publishes.  The content (Update's `root == 0 && len(dirty) == 0`) lives in
+                                  the hand model, tied by `fin`.  In particular "the leftover no-op publishes nothing" is proved ONLY
+                                  under the ASSUMED hypothesis `∀ k ∈ dl, changed k = false` (never derived from a run) plus the one
+                                  `decide` witness of `assetcode_undo_leaves_noop_dirty`; there is NO `publish`-level theorem for a
+                                  span outside `DirtyOk`.
+    * SCOPE OF THE GUARD `ExactW ∧ DirtyOk`: it excludes every span that contains SetCode, SetSuicide, or an asset-code-family
+                                  write to a committed, un-queued asset — i.e. every discarded contract creation and every discarded
+                                  Issue / Replenish / ModifyAssetProfile on an asset that already exists (the NORMAL case after
+                                  its creating block).  Those are covered by the correspondence and the oracles only.
+    * `runD_st` is erasure BY CONSTRUCTION (`writeD` defines `st` as `(write …).1`): bookkeeping.
+    * no `example` instantiates `revert_exact_dirty` / `discard_no_root_trace` with a non-trivial prefix `P` (examples are on
+                                  `d00` / `dLoaded`; `Good P` after a prefix needs `replayable_good`, not packaged for the D layer).
     * `corner_set_delete_set_reverted` — set K; delete K (kept); set K reverted: exact on all four tries.
 -/
 import LemoProofs.C07
@@ -426,7 +439,8 @@ theorem set_root_publishes_iff (dl : List Nat) (changed : Nat → Bool) :
     · intro e; cases e
     · intro e; exact absurd (by simpa using e) h
 
-/-- … so queued no-op writes publish nothing there. -/
+/-- … so queued no-op writes publish nothing there.  (Unfolding of `rootLog`; the hypothesis `h` is ASSUMED, it is not
+    derived from any run of the model.) -/
 theorem noop_dirty_publishes_nothing (dl : List Nat) (changed : Nat → Bool) (h : ∀ k ∈ dl, changed k = false) :
     rootLog true dl changed = none := by
   unfold rootLog
